@@ -455,6 +455,6 @@ MANIFEST = {
         "lambdified variant against its own 50-digit value on a grid with mass ratios 1..1e8 (incl. m1=1000, m2=1e-5) near, between, above, "
         "below the thresholds and at negative s: |error| <= 64 * 2^-53 * (first-order running error bound of the documented formula, "
         "computed per point); the worst error/bound ratio of the tree under test is recorded per variant in the evidence (clean tree: "
-        "<= 1.7 over 150 000 evaluations), so an algebraically identical but cancelling rewrite is reported with a concrete point. A hardening oracle (tools/search/C11_exact.py) checks on every run: numbers vs symbols for every public callable incl. equal/zero masses and s exactly at the thresholds, the Piecewise branches exactly on their boundaries, ComplexSqrt on numbers and on compound arguments in generated numpy code (cse off/on, real and complex inputs, folded vs unfolded), name= defaults. Observed on the pinned tree and NOT counted: ComplexSqrt._pythoncode (modules=\"math\") loses parentheses for sum arguments (notes/findings_C11.md)."
+        "<= 1.7 over 150 000 evaluations), so an algebraically identical but cancelling rewrite is reported with a concrete point. A hardening oracle (tools/search/C11_exact.py) checks on every run: numbers vs symbols for every public callable incl. equal/zero masses and s exactly at the thresholds, the Piecewise branches exactly on their boundaries, ComplexSqrt on numbers and on compound arguments in generated numpy code (cse off/on, real and complex inputs, folded vs unfolded), name= defaults. ComplexSqrt._pythoncode (modules=\"math\") on sum arguments is an evidence-only probe (repaired in /repo by 1aeaf5e and judged by C14; no C11 verdict)."
     ),
 }
